@@ -504,6 +504,79 @@ def generations (emit : String → IO Unit) : IO Unit := do
             if ctxKind == 2 then
               emit (sceneCase 10 (tItems ++ [{ st 1 with f := (st 1).f.set 1 rg }]) [(7, rg), (7, og), (1, 0)])
 
+/-! ### identifier boundaries
+
+  An identifier is a PAIR of naturals (object number, generation), each anywhere in 0 .. 2^63-1
+  (`IndirectP` / `ReferenceP` accept any non-negative i64); two identifiers are the same object only
+  when both components are equal.  The family puts boundary values into every identifier position
+  of a case - the header of the predefined objects, the `/Length n g R` reference, the header of
+  the stream object itself - and in particular PAIRS of distinct identifiers that an implementation
+  keying its table by something narrower than the pair would confuse: packings `(n << k) | g` and
+  `(n << k) + g` into a u64 (k = 16, 32), and truncation of a component to 16 / 32 bits.
+  Expected (the spec's look-up by the exact pair): a reference to the colliding-but-undefined
+  identifier needs more context; defining the colliding identifier is no duplicate and leaves the
+  other one as it was. -/
+
+def bGens : List Nat := [0, 1, 65535, 65536, 65537, 2 ^ 31, 2 ^ 32, 2 ^ 48, 2 ^ 63 - 1]
+def bNums : List Nat := [0, 1, 2 ^ 16, 2 ^ 31, 2 ^ 32, 2 ^ 47, 2 ^ 48, 2 ^ 48 + 1, 2 ^ 63 - 1]
+
+/-- narrower keys an implementation might use instead of the pair (each maps an identifier to the
+    canonical identifier of its class: two identifiers collide when their images are equal) -/
+def narrowKeys : List (Nat × Nat → Nat × Nat) :=
+  let pack (k : Nat) (plus : Bool) : Nat × Nat → Nat × Nat := fun (n, g) =>
+    let key := (if plus then (n <<< k) + g else (n <<< k) ||| g) % 2 ^ 64
+    (key >>> k, key % 2 ^ k)
+  [pack 16 false, pack 32 false, pack 16 true, pack 32 true,
+   fun (n, g) => (n, g % 2 ^ 16), fun (n, g) => (n, g % 2 ^ 32),
+   fun (n, g) => (n % 2 ^ 16, g), fun (n, g) => (n % 2 ^ 32, g),
+   fun (n, g) => (n % 2 ^ 32, g % 2 ^ 32), fun (n, g) => (n % 2 ^ 48, g % 2 ^ 16)]
+
+/-- pairs (a, b) of DISTINCT identifiers that collide under one of `narrowKeys`: every boundary
+    identifier with the canonical member of its class, and the identifiers built to hit (7,0) / (7,1) -/
+def collidingPairs : List ((Nat × Nat) × (Nat × Nat)) :=
+  let base : List (Nat × Nat) :=
+    (bNums.flatMap fun n => bGens.map fun g => (n, g)) ++
+    [(6, 65536), (7, 65536), (6, 65537), (7, 65537), (6, 131072), (5, 131072), (7, 2 ^ 32), (6, 2 ^ 32), (7, 2 ^ 32 + 1),
+     (7 + 2 ^ 32, 0), (7 + 2 ^ 48, 0), (7 + 2 ^ 16, 0), (7 + 2 ^ 31, 1), (7, 2 ^ 31), (7, 2 ^ 48), (7, 2 ^ 48 + 65536),
+     (2 ^ 48 + 7, 65535), (2 ^ 32 + 7, 2 ^ 32 + 1), (7, 2 ^ 63 - 1), (2 ^ 63 - 1, 0), (2 ^ 63 - 8, 7)]
+  let ps := base.flatMap fun a => narrowKeys.filterMap fun f =>
+    let b := f a
+    if b != a && NumLit.headerOK b.1 && NumLit.headerOK b.2 then some (a, b) else none
+  ps.eraseDups
+
+def idBoundaries (emit : String → IO Unit) (full : Bool) : IO Unit := do
+  let mut k := 0
+  let ps := if full then [bs "abcd", ([] : Bytes), bs "endstream endobj xx"] else [bs "abcd"]
+  for p in ps do
+    let l := p.length
+    let stm (sid : Nat × Nat) (r : Nat × Nat) (k : Nat) : Item :=
+      mkStream sid.1 sid.2 (k % 4) ((k / 4) % 4) (k % 3) 1 r.1 r.2 0 [k % 9, k % 7, k % 5, k % 4, k % 3, k % 8] (k % 2) ((k / 2) % 4) 0 0 p
+    let int (id : Nat × Nat) (v : Nat) (k : Nat) : Item := mkPlain id.1 id.2 0 v [k % 5, k % 3, 0, k % 2, k % 4] 0
+    -- every boundary identifier on its own: referenced while undefined, defined then referenced,
+    -- as the stream object's own header
+    for n in bNums do
+      for g in bGens do
+        k := k + 1
+        let a := (n, g)
+        emit (sceneCase 10 [stm (9, 0) a k, int a l k, stm (10, 0) a k] [a, (7, 0), (n, 0), (0, g)])
+        emit (sceneCase 10 [stm a (7, 0) k, int (7, 0) l k, stm (n, g + 1) (7, 0) k, stm a (7, 0) k] [a, (7, 0), (n, 0), (0, g)])
+    -- colliding pairs
+    for (a, b) in collidingPairs do
+      k := k + 1
+      let ids := [a, b, (9, 0), (10, 0)]
+      -- only `b` is defined: `/Length a R` needs more context (and the other way round)
+      emit (sceneCase 10 [int b l k, stm (9, 0) a k] ids)
+      emit (sceneCase 10 [int a l k, stm (9, 0) b k] ids)
+      -- both defined, with different values, in either order: neither is a duplicate, each keeps its
+      -- value (exactly one of them frames the data)
+      emit (sceneCase 10 [int b (l + 1) k, int a l k, stm (9, 0) a k, stm (10, 0) b k] ids)
+      emit (sceneCase 10 [int a (l + 1) k, int b l k, stm (9, 0) a k, stm (10, 0) b k] ids)
+      -- the stream object ITSELF carries `a`, its length is object `b`: no duplicate
+      emit (sceneCase 10 [int b l k, stm a b k] ids)
+      -- forward: `/Length a R` with only `b` defined, then `a`, then the stream again
+      if full || k % 2 == 0 then
+        emit (sceneCase 10 [int b (l + 1) k, stm (9, 0) a k, int a l k, stm (10, 0) a k] ids)
+
 /-! ### the object referenced by `/Length n g R`, of every kind
 
   The stream declares `/Length 7 0 R`; what (7, 0) is varies over every kind of object, each one
@@ -712,6 +785,7 @@ def gen (seed n : Nat) (tier : String) (emit0 : String → IO Unit) : IO Unit :=
   let emit := emitC none
   cutWindows emit0 (tier == "thorough")
   generations emit
+  idBoundaries emit (tier == "thorough")
   lengthTargets emit (tier == "thorough")
   wide emit (tier == "thorough")
   systematic emit (tier == "thorough")
